@@ -60,6 +60,8 @@ pub struct Checker {
     pub unwind_ctx: Option<String>,
     /// the message currently being handled by the client: (session, provenance, bytes)
     pub cur: Option<(usize, Tag, Bytes)>,
+    /// set_scripts calls that rewound filter sync: (min_filtered before, after, genesis re-filtered)
+    pub rewinds: Vec<(u64, u64, bool)>,
     /// hashes of start points the client may legitimately use (collected before the event)
     pub allowed_starts: HashSet<Vec<u8>>,
     pub c07: crate::oracle2::C07State,
@@ -558,14 +560,18 @@ impl Checker {
         &mut self,
         cmd: &crate::plan::SetCmd,
         list: &[(ScriptKey, u64)],
+        pending_start: Option<u64>,
     ) {
         use crate::plan::SetCmd;
+        // blocks of a still pending matched record were not indexed yet, whatever the
+        // reported number says
+        let settled = pending_start.map(|s| s.saturating_sub(1)).unwrap_or(u64::MAX);
         let retire = |m: &mut ScriptModel| {
             if let Some(start) = m.registered.take() {
                 if start == 0 {
                     m.prev.genesis = true;
                 }
-                m.prev.add(start, m.last_progress);
+                m.prev.add(start, m.last_progress.min(settled));
             }
         };
         match cmd {
@@ -767,11 +773,34 @@ impl Checker {
             ) {
                 let completeness = matches!(
                     clause.as_str(),
-                    "missing_live_cell" | "missing_tx_entry" | "spent_cell_reported_live"
+                    "missing_live_cell"
+                        | "missing_tx_entry"
+                        | "spent_cell_reported_live"
+                        | "spent_cell_outside_own_range_reported_live"
                 );
+                // a spent cell resurrected by re-filtering its creating block (after a
+                // set_scripts rewind) while the spending block is not examined again
+                let mut clause = clause;
+                if clause.starts_with("spent_cell") {
+                    let created = detail
+                        .rsplit("[created=")
+                        .next()
+                        .and_then(|x| x.trim_end_matches(']').parse::<u64>().ok())
+                        .unwrap_or(u64::MAX);
+                    let resurrected = self.rewinds.iter().any(|(_before, after, genesis)| {
+                        (created == 0 && *genesis) || created > *after
+                    });
+                    if resurrected {
+                        clause = "spent_cell_resurrected_by_refiltering_its_creating_block".to_string();
+                        sim.violate("C09", &clause, format!("[{}] {}", when, detail));
+                        continue;
+                    }
+                }
                 if step && completeness {
                     // mid-sync: the answers are judged against the height get_scripts reports (C09)
-                    let after_rollback = m.rolled_back_to == Some(progress) && block == progress;
+                    // (the "previous tip is block#1" safety rollback leaves the number at 1)
+                    let after_rollback = block == progress
+                        && (m.rolled_back_to == Some(progress) || progress == 1);
                     let c = if after_rollback {
                         "rollback_reports_removed_block_as_filtered".to_string()
                     } else {
